@@ -248,6 +248,8 @@ func main() {
 		derr = driveCLife(w)
 	case "csession":
 		derr = driveCSession(w)
+	case "caddr":
+		derr = driveCAddr(w)
 	default:
 		derr = fmt.Errorf("unknown family %q", sub)
 	}
